@@ -108,8 +108,14 @@ _nonl = set()
 REC = re.compile(rb"^REMOTE\|([^|]*)\|\s*(\d+)\|(\d+)\|([^|]*)\|(.*)$", re.S)
 
 
+import itertools
+_bbseq = itertools.count()
+
+
 def _blackbox(env, c, server):
-    path = os.path.join(env.dir, "bb_%s_%d_%d.txt" % (c["transport"], c["nlines"], c["linelen"]))
+    # one file per case: black-box cases run at the same time, and rewriting a file another dcat is reading
+    # would look like lost lines
+    path = os.path.join(env.dir, "bb_%s_%d.txt" % (c["transport"], next(_bbseq)))
     with open(path, "w") as f:
         for i in range(c["nlines"]):
             f.write("%07d %s\n" % (i, "y" * (c["linelen"] - 9)))
